@@ -36,12 +36,12 @@ def make_wallgo_model(m, nparticles=0):
             dmsq = (lambda yy: (lambda f: np.transpose([yy * yy * f.getField(0)])))(y)
         else:
             # mass from the first CANONICAL field (h), expressed in the model's own field labels
-            j = [k for k in range(2) if m.perm[k] == 0][0]
+            j = [k for k in range(m.nf) if m.perm[k] == 0][0]
             sj, tj = m.sign[j], m.shift[j]
             msq = (lambda yy: (lambda f: 0.5 * yy * yy * ((f.getField(j) - tj) * sj) ** 2))(y)
 
             def dmsq(f, yy=y):
-                out = np.zeros(np.shape(f.getField(0)) + (2,))
+                out = np.zeros(np.shape(f.getField(0)) + (m.nf,))
                 out[..., j] = yy * yy * (f.getField(j) - tj)
                 return out
 
